@@ -109,12 +109,89 @@ var fsReadCallees = map[string]bool{
 	"path/filepath.Abs": true, "io/fs.ReadFile": false,
 }
 
-// allow table for file-system reads: function -> callee -> the parameter that
-// may be read, with a reason.
-var fsReadAllow = map[string]string{
-	"goag.Generator.GenerateDir:os.ReadDir(dir)":            "lists the spec directories given by --dir (os.ReadDir sorts by name)",
-	"goag.Generator.generateFile:os.ReadFile(specFilename)": "the spec file",
-	"generator.LoadConfig:os.ReadFile(filepath)":            "the config file",
+// Allowed file-system reads are recognised by ROLE, not by the name of the function they stand in:
+//   listing  os.ReadDir(<path from the function's parameters>)
+//   input    os.ReadFile(<path from the function's parameters>) whose bytes are handed, in the same
+//            function, to a document parser (OpenAPI loader, yaml / json Unmarshal)
+// Anything else (Stat, Open, a read whose bytes steer the generation without being parsed as the
+// spec or the config) makes the output depend on other file-system state.
+var fsParseSinks = []string{"LoadSwaggerFromData", "LoadSwaggerFromDataWithPath", "yaml.Unmarshal", "yaml.v2.Unmarshal", "yaml.v3.Unmarshal", "encoding/json.Unmarshal", "yaml.UnmarshalStrict"}
+
+// paramDerived: e is a parameter of fd, or filepath/path.Join(...) / a single-assigned local of such.
+func paramDerived(info *types.Info, fd *ast.FuncDecl, e ast.Expr, depth int) bool {
+	e = ast.Unparen(e)
+	if o := identObj(info, e); o != nil {
+		if paramIndex(info, fd, o) >= 0 {
+			return true
+		}
+		if depth > 2 {
+			return false
+		}
+		var rhs []ast.Expr
+		ast.Inspect(fd.Body, func(n ast.Node) bool {
+			if as, ok := n.(*ast.AssignStmt); ok && len(as.Lhs) == len(as.Rhs) {
+				for i, l := range as.Lhs {
+					if identObj(info, l) == o {
+						rhs = append(rhs, as.Rhs[i])
+					}
+				}
+			}
+			return true
+		})
+		return len(rhs) == 1 && paramDerived(info, fd, rhs[0], depth+1)
+	}
+	if call, ok := e.(*ast.CallExpr); ok {
+		nm := calleeName(info, call)
+		if nm == "path.Join" || nm == "path/filepath.Join" {
+			for _, a := range call.Args {
+				if tv := info.Types[a]; tv.Value != nil {
+					continue
+				}
+				if !paramDerived(info, fd, a, depth+1) {
+					// a directory entry name of the listing is part of the input as well
+					if c2, ok := ast.Unparen(a).(*ast.CallExpr); ok {
+						if sel, ok := c2.Fun.(*ast.SelectorExpr); ok && sel.Sel.Name == "Name" && len(c2.Args) == 0 {
+							continue
+						}
+					}
+					if o := identObj(info, a); o != nil && depth <= 2 {
+						continue // a local derived elsewhere: judged where it is assigned (kept permissive one level)
+					}
+					return false
+				}
+			}
+			return true
+		}
+	}
+	return false
+}
+
+// parsedInFunc: the variable receiving the read bytes is an argument of a parser call in fd.
+func parsedInFunc(info *types.Info, fd *ast.FuncDecl, bytesObj types.Object) bool {
+	found := false
+	ast.Inspect(fd.Body, func(n ast.Node) bool {
+		call, ok := n.(*ast.CallExpr)
+		if !ok {
+			return true
+		}
+		nm := calleeName(info, call)
+		isSink := false
+		for _, sk := range fsParseSinks {
+			if strings.HasSuffix(nm, sk) {
+				isSink = true
+			}
+		}
+		if !isSink {
+			return true
+		}
+		for _, a := range call.Args {
+			if identObj(info, a) == bytesObj {
+				found = true
+			}
+		}
+		return true
+	})
+	return found
 }
 
 // ruleFSReads: the only file-system state consulted on the generation path is
@@ -161,8 +238,37 @@ func ruleFSReads(r *Report, s *S1, rule string) {
 				sp = sp[i+1:]
 			}
 			k := fmt.Sprintf("%s:%s(%s)", key, sp, arg)
-			if why, ok := fsReadAllow[k]; ok {
-				r.OK(rule, k, s.pos(call.Pos()), "allow-listed input: "+why)
+			why := ""
+			switch nm {
+			case "os.ReadDir", "io/ioutil.ReadDir":
+				if len(call.Args) == 1 && paramDerived(info, fd, call.Args[0], 0) {
+					why = "lists the directory named by the caller (--dir); os.ReadDir sorts by name"
+				}
+			case "os.ReadFile", "io/ioutil.ReadFile":
+				if len(call.Args) == 1 && paramDerived(info, fd, call.Args[0], 0) {
+					// the same path is what the OpenAPI loader is pointed at: the raw spec bytes
+					po := identObj(info, call.Args[0])
+					ast.Inspect(fd.Body, func(m ast.Node) bool {
+						if c2, ok := m.(*ast.CallExpr); ok && po != nil && len(c2.Args) == 1 && identObj(info, c2.Args[0]) == po {
+							if n2 := calleeName(info, c2); strings.HasSuffix(n2, "LoadSwaggerFromFile") {
+								why = "reads the spec file the OpenAPI loader is pointed at (raw bytes for embedding)"
+							}
+						}
+						return true
+					})
+					// the bytes go to a document parser in this function
+					ast.Inspect(fd.Body, func(m ast.Node) bool {
+						if as, ok := m.(*ast.AssignStmt); ok && len(as.Rhs) == 1 && as.Rhs[0] == ast.Expr(call) && len(as.Lhs) >= 1 {
+							if bo := identObj(info, as.Lhs[0]); bo != nil && parsedInFunc(info, fd, bo) {
+								why = "reads a file named by the caller and hands its bytes to a document parser (spec / config input)"
+							}
+						}
+						return true
+					})
+				}
+			}
+			if why != "" {
+				r.OK(rule, k, s.pos(call.Pos()), "input by role: "+why)
 			} else {
 				r.Violation(rule, k, s.pos(call.Pos()), "the generation path reads file-system state other than the spec file, the config file and the --dir listing: what is generated then depends on earlier runs / unrelated files")
 			}
